@@ -3,6 +3,7 @@ package actionlint
 import (
 	"fmt"
 	"io"
+	"sort"
 	"time"
 )
 
@@ -64,7 +65,20 @@ func (v *Visitor) Visit(n *Workflow) error {
 		t = time.Now()
 	}
 
+	// Visit jobs in the order of their positions in the source. Ranging over the map directly makes
+	// the order, and results which depend on it, change from run to run
+	jobs := make([]*Job, 0, len(n.Jobs))
 	for _, j := range n.Jobs {
+		jobs = append(jobs, j)
+	}
+	sort.Slice(jobs, func(i, j int) bool {
+		p, q := jobs[i].Pos, jobs[j].Pos
+		if p == nil || q == nil {
+			return p == nil && q != nil
+		}
+		return p.IsBefore(q)
+	})
+	for _, j := range jobs {
 		if err := v.visitJob(j); err != nil {
 			return err
 		}
